@@ -583,6 +583,13 @@ def check_case(case):
     for op in ops:
         t = op["op"]
         if t == "set":
+            if "matrix_dtype_changes" in labels:
+                # accumulating the (complex) sensitivities of a complex design onto the (real) ones left from a real design
+                # without a reset is not a meaningful history (numpy refuses the in-place cast): reset before the dtype
+                # of the matrix can change
+                if not guarded(used.net.reset, "reset"):
+                    return labels, V
+                clean, seeds = True, {}
             cur_k = op["k"]
             cur = used.sources[0].state
             new = used.designs[cur_k]
